@@ -89,6 +89,24 @@ def gen_cases(rng, tier):
                           'q': {'k': 'mk', 'n': ['int', '3/1'], 'u': u, 'via': via}})
         cases.append({'dm': 'MHEVEN', 'pre': False, 'script': script, 'hist': [],
                       'q': _dirq(w, script)})
+    # symbols made of blanks only are symbols like any other (not the empty symbol): the unit
+    # is found under exactly that symbol, '' stays unknown (seeded C15-f: symbol.strip())
+    for i in range(12 if tier == 'quick' else 120):
+        tag = ''.join(rng.choice('abcdefghk') for _ in range(3))
+        script, w, exp = RW.gen_history(rng, tag)
+        bases = [c for c, v in w.classes.items() if c not in ('Quantity', 'Money')
+                 and not v['cdef'] and v['ref'] and v['quantum'] is None]
+        if not bases:
+            continue
+        b = rng.choice(bases)
+        extra = [{'d': 'unit', 'cls': b, 'sym': blank,
+                  'def': ['qty', ['int', f'{k}/1'], w.classes[b]['ref']]}
+                 for k, blank in ((3, ' '), (5, '  '))]
+        script = script + extra
+        for d in extra:
+            w.apply(d)
+        cases.append({'dm': 'MHEVEN', 'pre': False, 'script': script, 'hist': [],
+                      'q': _dirq(w, script, extra_syms=['', ' ', '  ', '   '])})
     # the predefined catalogue as a history + further declarations on top of it
     syms = None
     for i in range(6 if tier == 'quick' else 40):
